@@ -17,6 +17,7 @@ def parseFieldDesc (s : String) : Option FieldDesc :=
   match s.splitOn ":" with
   | ["P", p] => some (.prime p.toNat!)
   | ["B", n, m] => some (.bin n.toNat! m.toNat!)
+  | ["B", n, m, _] => some (.bin n.toNat! m.toNat!)
   | ["E", p, n, g] => some (.ext p.toNat! n.toNat! ((g.splitOn ".").map String.toNat!))
   | _ => none
 
@@ -194,7 +195,12 @@ def runHistLine (toks : List String) (rest : String) : String :=
     let ops := (rest.splitOn "|").map (·.trimAscii.toString) |>.filter (· != "")
     match parseFieldDesc fd with
     | some (.prime p) => runHist (.prime p) (primeOps p) uSpec bSpec (snapS == "1") ops
-    | some (.bin n m) => runHist (.bin n m) (binOps n m) uSpec bSpec (snapS == "1") ops
+    | some (.bin n m) =>
+      -- optional fourth component: the variable name given to binfield.SetVarName (hex)
+      let var := match fd.splitOn ":" with
+        | [_, _, _, v] => unhex v
+        | _ => "a"
+      runHist (.bin n m) (binOps n m var) uSpec bSpec (snapS == "1") ops
     | some (.ext p n g) => runHist (.ext p n g) (extOps p n g) uSpec bSpec (snapS == "1") ops
     | none => "bad-field"
   | _ => "bad-hist-header"
